@@ -631,8 +631,15 @@ class C11(Check):
             else:
                 rest = entries
                 if fname != "uiHeartbeat" and any(e[0] != "x" for e in entries):
+                    if fault == "timeout" and not locals().get("touched_before"):
+                        # the statement asks for the repair after a link failure "(not a time-out)"; it
+                        # does not forbid a manager that also re-opens the connection after a time-out
+                        # (a stream transport must: the late answer is still in the stream)
+                        stats.dont_care += 1
+                        return
                     viol("reconnect-without-cause", {"log": entries[:8]}, "no close/open")
                     return
+            touched_before = True
             if exc is not None:
                 viol("follow-up-stops-manager", {"exc": exc, "request": fname}, "a reply")
                 return
